@@ -28,7 +28,26 @@ type c14site struct {
 
 func here(pc uintptr, f string, ln int, _ bool) c14site { return c14site{pc, f, ln} }
 
+// mark records the source position of the expression that calls it - it is written as an argument of the
+// log call itself, so it is on the call's own line whatever gofmt does to the surrounding function - and
+// returns the message.
+func mark(s *c14site) string         { *s = here(runtime.Caller(1)); return "m" }
+func mark42(s *c14site) any          { *s = here(runtime.Caller(1)); return 42 }
+func markErr(s *c14site) any         { *s = here(runtime.Caller(1)); return c14err }
+func markBlank(s *c14site) []any     { *s = here(runtime.Caller(1)); return nil }
+func markV[T any](s *c14site, v T) T { *s = here(runtime.Caller(1)); return v }
+
+var c14err = fmt.Errorf("an error value")
+
+// c14conf configures a derived logger like the logger under test.
+func c14conf(x slog.Logger, e *c14env) {
+	if e.conf != nil {
+		e.conf(x)
+	}
+}
+
 type c14env struct {
+	conf func(x slog.Logger)
 	l    slog.Logger     // the logger under test (already carrying skip n when n > 0)
 	sl   *logslog.Logger // log/slog logger on top of the adapter
 	std  *log.Logger     // std log bridge
@@ -45,74 +64,196 @@ type c14entry struct {
 // Every case is ONE line: the capture and the call share the source line.
 func c14entries() []c14entry {
 	return []c14entry{
-		{"Info", "native", func(e *c14env) c14site { s := here(runtime.Caller(0)); e.l.Info("m", "k", 1); return s }},
-		{"Error", "native", func(e *c14env) c14site { s := here(runtime.Caller(0)); e.l.Error("m", "k", 1); return s }},
-		{"Warn", "native", func(e *c14env) c14site { s := here(runtime.Caller(0)); e.l.Warn("m", "k", 1); return s }},
-		{"Debug", "native", func(e *c14env) c14site { s := here(runtime.Caller(0)); e.l.Debug("m", "k", 1); return s }},
-		{"Trace", "native", func(e *c14env) c14site { s := here(runtime.Caller(0)); e.l.Trace("m", "k", 1); return s }},
-		{"Panic", "native", func(e *c14env) c14site { s := here(runtime.Caller(0)); e.l.Panic("m", "k", 1); return s }},
-		{"Fatal", "native", func(e *c14env) c14site { s := here(runtime.Caller(0)); e.l.Fatal("m", "k", 1); return s }},
-		{"Print", "native", func(e *c14env) c14site { s := here(runtime.Caller(0)); e.l.Print("m", "k", 1); return s }},
-		{"Println", "native", func(e *c14env) c14site { s := here(runtime.Caller(0)); e.l.Println("m", "k", 1); return s }},
-		{"OK", "native", func(e *c14env) c14site { s := here(runtime.Caller(0)); e.l.OK("m", "k", 1); return s }},
-		{"Success", "native", func(e *c14env) c14site { s := here(runtime.Caller(0)); e.l.Success("m", "k", 1); return s }},
-		{"Fail", "native", func(e *c14env) c14site { s := here(runtime.Caller(0)); e.l.Fail("m", "k", 1); return s }},
-		{"InfoContext", "native", func(e *c14env) c14site { s := here(runtime.Caller(0)); e.l.InfoContext(e.ctx, "m", "k", 1); return s }},
-		{"ErrorContext", "native", func(e *c14env) c14site { s := here(runtime.Caller(0)); e.l.ErrorContext(e.ctx, "m", "k", 1); return s }},
-		{"WarnContext", "native", func(e *c14env) c14site { s := here(runtime.Caller(0)); e.l.WarnContext(e.ctx, "m", "k", 1); return s }},
-		{"DebugContext", "native", func(e *c14env) c14site { s := here(runtime.Caller(0)); e.l.DebugContext(e.ctx, "m", "k", 1); return s }},
-		{"TraceContext", "native", func(e *c14env) c14site { s := here(runtime.Caller(0)); e.l.TraceContext(e.ctx, "m", "k", 1); return s }},
-		{"PanicContext", "native", func(e *c14env) c14site { s := here(runtime.Caller(0)); e.l.PanicContext(e.ctx, "m", "k", 1); return s }},
-		{"FatalContext", "native", func(e *c14env) c14site { s := here(runtime.Caller(0)); e.l.FatalContext(e.ctx, "m", "k", 1); return s }},
-		{"PrintContext", "native", func(e *c14env) c14site { s := here(runtime.Caller(0)); e.l.PrintContext(e.ctx, "m", "k", 1); return s }},
-		{"PrintlnContext", "native", func(e *c14env) c14site { s := here(runtime.Caller(0)); e.l.PrintlnContext(e.ctx, "m", "k", 1); return s }},
-		{"OKContext", "native", func(e *c14env) c14site { s := here(runtime.Caller(0)); e.l.OKContext(e.ctx, "m", "k", 1); return s }},
-		{"SuccessContext", "native", func(e *c14env) c14site { s := here(runtime.Caller(0)); e.l.SuccessContext(e.ctx, "m", "k", 1); return s }},
-		{"FailContext", "native", func(e *c14env) c14site { s := here(runtime.Caller(0)); e.l.FailContext(e.ctx, "m", "k", 1); return s }},
-		{"LogAttrs", "native", func(e *c14env) c14site { s := here(runtime.Caller(0)); e.l.LogAttrs(e.ctx, slog.InfoLevel, "m", "k", 1); return s }},
-		{"Logit", "native", func(e *c14env) c14site { s := here(runtime.Caller(0)); e.l.Logit(e.ctx, slog.WarnLevel, "m", "k", 1); return s }},
-		{"Log", "native", func(e *c14env) c14site { s := here(runtime.Caller(0)); e.l.Log(e.ctx, logslog.LevelInfo, "m", "k", 1); return s }},
-		{"Infof", "native", func(e *c14env) c14site { s := here(runtime.Caller(0)); _ = e.l.Infof("m %d", 1); return s }},
-		{"Warnf", "native", func(e *c14env) c14site { s := here(runtime.Caller(0)); _ = e.l.Warnf("m %d", 1); return s }},
-		{"Errorf", "native", func(e *c14env) c14site { s := here(runtime.Caller(0)); _ = e.l.Errorf("m %d", 1); return s }},
-		{"interface-dispatched Info", "native", func(e *c14env) c14site { var p slog.Printer = e.l; s := here(runtime.Caller(0)); p.Info("m"); return s }},
-		{"deferred Info", "native", func(e *c14env) (s c14site) { defer func() { s = here(runtime.Caller(0)); e.l.Info("m") }(); return }},
-		{"slog.Info", "package", func(e *c14env) c14site { s := here(runtime.Caller(0)); slog.Info("m", "k", 1); return s }},
-		{"slog.Error", "package", func(e *c14env) c14site { s := here(runtime.Caller(0)); slog.Error("m", "k", 1); return s }},
-		{"slog.Warn", "package", func(e *c14env) c14site { s := here(runtime.Caller(0)); slog.Warn("m", "k", 1); return s }},
-		{"slog.Debug", "package", func(e *c14env) c14site { s := here(runtime.Caller(0)); slog.Debug("m", "k", 1); return s }},
-		{"slog.Trace", "package", func(e *c14env) c14site { s := here(runtime.Caller(0)); slog.Trace("m", "k", 1); return s }},
-		{"slog.Panic", "package", func(e *c14env) c14site { s := here(runtime.Caller(0)); slog.Panic("m", "k", 1); return s }},
-		{"slog.Fatal", "package", func(e *c14env) c14site { s := here(runtime.Caller(0)); slog.Fatal("m", "k", 1); return s }},
-		{"slog.Print", "package", func(e *c14env) c14site { s := here(runtime.Caller(0)); slog.Print("m", "k", 1); return s }},
-		{"slog.Println", "package", func(e *c14env) c14site { s := here(runtime.Caller(0)); slog.Println("m", "k", 1); return s }},
-		{"slog.OK", "package", func(e *c14env) c14site { s := here(runtime.Caller(0)); slog.OK("m", "k", 1); return s }},
-		{"slog.Success", "package", func(e *c14env) c14site { s := here(runtime.Caller(0)); slog.Success("m", "k", 1); return s }},
-		{"slog.Fail", "package", func(e *c14env) c14site { s := here(runtime.Caller(0)); slog.Fail("m", "k", 1); return s }},
-		{"slog.InfoContext", "package", func(e *c14env) c14site { s := here(runtime.Caller(0)); slog.InfoContext(e.ctx, "m", "k", 1); return s }},
-		{"slog.ErrorContext", "package", func(e *c14env) c14site { s := here(runtime.Caller(0)); slog.ErrorContext(e.ctx, "m", "k", 1); return s }},
-		{"slog.WarnContext", "package", func(e *c14env) c14site { s := here(runtime.Caller(0)); slog.WarnContext(e.ctx, "m", "k", 1); return s }},
-		{"slog.DebugContext", "package", func(e *c14env) c14site { s := here(runtime.Caller(0)); slog.DebugContext(e.ctx, "m", "k", 1); return s }},
-		{"slog.TraceContext", "package", func(e *c14env) c14site { s := here(runtime.Caller(0)); slog.TraceContext(e.ctx, "m", "k", 1); return s }},
-		{"slog.PanicContext", "package", func(e *c14env) c14site { s := here(runtime.Caller(0)); slog.PanicContext(e.ctx, "m", "k", 1); return s }},
-		{"slog.FatalContext", "package", func(e *c14env) c14site { s := here(runtime.Caller(0)); slog.FatalContext(e.ctx, "m", "k", 1); return s }},
-		{"slog.PrintContext", "package", func(e *c14env) c14site { s := here(runtime.Caller(0)); slog.PrintContext(e.ctx, "m", "k", 1); return s }},
-		{"slog.PrintlnContext", "package", func(e *c14env) c14site { s := here(runtime.Caller(0)); slog.PrintlnContext(e.ctx, "m", "k", 1); return s }},
-		{"slog.OKContext", "package", func(e *c14env) c14site { s := here(runtime.Caller(0)); slog.OKContext(e.ctx, "m", "k", 1); return s }},
-		{"slog.SuccessContext", "package", func(e *c14env) c14site { s := here(runtime.Caller(0)); slog.SuccessContext(e.ctx, "m", "k", 1); return s }},
-		{"slog.FailContext", "package", func(e *c14env) c14site { s := here(runtime.Caller(0)); slog.FailContext(e.ctx, "m", "k", 1); return s }},
-		{"log/slog Logger.Info", "adapter", func(e *c14env) c14site { s := here(runtime.Caller(0)); e.sl.Info("m", "k", 1); return s }},
-		{"log/slog Logger.Warn", "adapter", func(e *c14env) c14site { s := here(runtime.Caller(0)); e.sl.Warn("m", "k", 1); return s }},
-		{"log/slog Logger.ErrorContext", "adapter", func(e *c14env) c14site { s := here(runtime.Caller(0)); e.sl.ErrorContext(e.ctx, "m", "k", 1); return s }},
-		{"log/slog Logger.Log", "adapter", func(e *c14env) c14site { s := here(runtime.Caller(0)); e.sl.Log(e.ctx, logslog.LevelInfo, "m", "k", 1); return s }},
-		{"log/slog Logger.LogAttrs", "adapter", func(e *c14env) c14site { s := here(runtime.Caller(0)); e.sl.LogAttrs(e.ctx, logslog.LevelInfo, "m", logslog.Int("k", 1)); return s }},
-		{"log/slog package Info (SetDefault)", "adapter", func(e *c14env) c14site { old := logslog.Default(); logslog.SetDefault(e.sl); defer logslog.SetDefault(old); s := here(runtime.Caller(0)); logslog.Info("m", "k", 1); return s }},
-		{"log/slog Logger.With(...).Info (derived handler)", "adapter", func(e *c14env) c14site { d := e.sl.With("a", 1); s := here(runtime.Caller(0)); d.Info("m", "k", 1); return s }},
-		{"log/slog Logger.WithGroup(g).Warn (derived handler)", "adapter", func(e *c14env) c14site { d := e.sl.WithGroup("g"); s := here(runtime.Caller(0)); d.Warn("m", "k", 1); return s }},
-		{"std log Print", "bridge", func(e *c14env) c14site { s := here(runtime.Caller(0)); e.std.Print("m"); return s }},
-		{"std log Printf", "bridge", func(e *c14env) c14site { s := here(runtime.Caller(0)); e.std.Printf("m %d", 1); return s }},
-		{"std log Println", "bridge", func(e *c14env) c14site { s := here(runtime.Caller(0)); e.std.Println("m"); return s }},
-		{"std log Output(1)", "bridge", func(e *c14env) c14site { s := here(runtime.Caller(0)); _ = e.std.Output(1, "m"); return s }},
+		{"Info", "native", func(e *c14env) (s c14site) { e.l.Info(mark(&s), "k", 1); return }},
+		{"Error", "native", func(e *c14env) (s c14site) { e.l.Error(mark(&s), "k", 1); return }},
+		{"Warn", "native", func(e *c14env) (s c14site) { e.l.Warn(mark(&s), "k", 1); return }},
+		{"Debug", "native", func(e *c14env) (s c14site) { e.l.Debug(mark(&s), "k", 1); return }},
+		{"Trace", "native", func(e *c14env) (s c14site) { e.l.Trace(mark(&s), "k", 1); return }},
+		{"Panic", "native", func(e *c14env) (s c14site) { e.l.Panic(mark(&s), "k", 1); return }},
+		{"Fatal", "native", func(e *c14env) (s c14site) { e.l.Fatal(mark(&s), "k", 1); return }},
+		{"Print", "native", func(e *c14env) (s c14site) { e.l.Print(mark(&s), "k", 1); return }},
+		{"Println", "native", func(e *c14env) (s c14site) { e.l.Println(mark(&s), "k", 1); return }},
+		{"OK", "native", func(e *c14env) (s c14site) { e.l.OK(mark(&s), "k", 1); return }},
+		{"Success", "native", func(e *c14env) (s c14site) { e.l.Success(mark(&s), "k", 1); return }},
+		{"Fail", "native", func(e *c14env) (s c14site) { e.l.Fail(mark(&s), "k", 1); return }},
+		{"InfoContext", "native", func(e *c14env) (s c14site) {
+			e.l.InfoContext(e.ctx, mark(&s), "k", 1)
+			return
+		}},
+		{"ErrorContext", "native", func(e *c14env) (s c14site) {
+			e.l.ErrorContext(e.ctx, mark(&s), "k", 1)
+			return
+		}},
+		{"WarnContext", "native", func(e *c14env) (s c14site) {
+			e.l.WarnContext(e.ctx, mark(&s), "k", 1)
+			return
+		}},
+		{"DebugContext", "native", func(e *c14env) (s c14site) {
+			e.l.DebugContext(e.ctx, mark(&s), "k", 1)
+			return
+		}},
+		{"TraceContext", "native", func(e *c14env) (s c14site) {
+			e.l.TraceContext(e.ctx, mark(&s), "k", 1)
+			return
+		}},
+		{"PanicContext", "native", func(e *c14env) (s c14site) {
+			e.l.PanicContext(e.ctx, mark(&s), "k", 1)
+			return
+		}},
+		{"FatalContext", "native", func(e *c14env) (s c14site) {
+			e.l.FatalContext(e.ctx, mark(&s), "k", 1)
+			return
+		}},
+		{"PrintContext", "native", func(e *c14env) (s c14site) {
+			e.l.PrintContext(e.ctx, mark(&s), "k", 1)
+			return
+		}},
+		{"PrintlnContext", "native", func(e *c14env) (s c14site) {
+			e.l.PrintlnContext(e.ctx, mark(&s), "k", 1)
+			return
+		}},
+		{"OKContext", "native", func(e *c14env) (s c14site) { e.l.OKContext(e.ctx, mark(&s), "k", 1); return }},
+		{"SuccessContext", "native", func(e *c14env) (s c14site) {
+			e.l.SuccessContext(e.ctx, mark(&s), "k", 1)
+			return
+		}},
+		{"FailContext", "native", func(e *c14env) (s c14site) {
+			e.l.FailContext(e.ctx, mark(&s), "k", 1)
+			return
+		}},
+		{"LogAttrs", "native", func(e *c14env) (s c14site) {
+			e.l.LogAttrs(e.ctx, slog.InfoLevel, mark(&s), "k", 1)
+			return
+		}},
+		{"Logit", "native", func(e *c14env) (s c14site) {
+			e.l.Logit(e.ctx, slog.WarnLevel, mark(&s), "k", 1)
+			return
+		}},
+		{"Log", "native", func(e *c14env) (s c14site) {
+			e.l.Log(e.ctx, logslog.LevelInfo, mark(&s), "k", 1)
+			return
+		}},
+		{"Infof", "native", func(e *c14env) (s c14site) { _ = e.l.Infof(mark(&s)+" %d", 1); return }},
+		{"Warnf", "native", func(e *c14env) (s c14site) { _ = e.l.Warnf(mark(&s)+" %d", 1); return }},
+		{"Errorf", "native", func(e *c14env) (s c14site) { _ = e.l.Errorf(mark(&s)+" %d", 1); return }},
+		{"Println(non-string first argument)", "native", func(e *c14env) (s c14site) { e.l.Println(mark42(&s), "k", 1); return }},
+		{"Println()", "native", func(e *c14env) (s c14site) { e.l.Println(markBlank(&s)...); return }},
+		{"Info after SetSkip(2); SetSkip(0)", "native", func(e *c14env) (s c14site) {
+			e.l.SetSkip(2)
+			e.l.SetSkip(0)
+			e.l.Info(mark(&s), "k", 1)
+			return
+		}},
+		{"Info on WithSkip(0) child", "native", func(e *c14env) (s c14site) {
+			ch := e.l.WithSkip(0)
+			c14conf(ch, e)
+			ch.Info(mark(&s), "k", 1)
+			return
+		}},
+		{"interface-dispatched Info", "native", func(e *c14env) (s c14site) {
+			var p slog.Printer = e.l
+			p.Info(mark(&s))
+			return
+		}},
+		{"deferred Info", "native", func(e *c14env) (s c14site) { defer func() { e.l.Info(mark(&s)) }(); return }},
+		{"slog.Info", "package", func(e *c14env) (s c14site) { slog.Info(mark(&s), "k", 1); return }},
+		{"slog.Error", "package", func(e *c14env) (s c14site) { slog.Error(mark(&s), "k", 1); return }},
+		{"slog.Warn", "package", func(e *c14env) (s c14site) { slog.Warn(mark(&s), "k", 1); return }},
+		{"slog.Debug", "package", func(e *c14env) (s c14site) { slog.Debug(mark(&s), "k", 1); return }},
+		{"slog.Trace", "package", func(e *c14env) (s c14site) { slog.Trace(mark(&s), "k", 1); return }},
+		{"slog.Panic", "package", func(e *c14env) (s c14site) { slog.Panic(mark(&s), "k", 1); return }},
+		{"slog.Fatal", "package", func(e *c14env) (s c14site) { slog.Fatal(mark(&s), "k", 1); return }},
+		{"slog.Print", "package", func(e *c14env) (s c14site) { slog.Print(mark(&s), "k", 1); return }},
+		{"slog.Println(non-string first argument)", "package", func(e *c14env) (s c14site) { slog.Println(mark42(&s), "k", 1); return }},
+		{"slog.Println(error first argument)", "package", func(e *c14env) (s c14site) { slog.Println(markErr(&s), "k", 1); return }},
+		{"slog.Println()", "package", func(e *c14env) (s c14site) { slog.Println(markBlank(&s)...); return }},
+		{"slog.Println", "package", func(e *c14env) (s c14site) { slog.Println(mark(&s), "k", 1); return }},
+		{"slog.OK", "package", func(e *c14env) (s c14site) { slog.OK(mark(&s), "k", 1); return }},
+		{"slog.Success", "package", func(e *c14env) (s c14site) { slog.Success(mark(&s), "k", 1); return }},
+		{"slog.Fail", "package", func(e *c14env) (s c14site) { slog.Fail(mark(&s), "k", 1); return }},
+		{"slog.InfoContext", "package", func(e *c14env) (s c14site) {
+			slog.InfoContext(e.ctx, mark(&s), "k", 1)
+			return
+		}},
+		{"slog.ErrorContext", "package", func(e *c14env) (s c14site) {
+			slog.ErrorContext(e.ctx, mark(&s), "k", 1)
+			return
+		}},
+		{"slog.WarnContext", "package", func(e *c14env) (s c14site) {
+			slog.WarnContext(e.ctx, mark(&s), "k", 1)
+			return
+		}},
+		{"slog.DebugContext", "package", func(e *c14env) (s c14site) {
+			slog.DebugContext(e.ctx, mark(&s), "k", 1)
+			return
+		}},
+		{"slog.TraceContext", "package", func(e *c14env) (s c14site) {
+			slog.TraceContext(e.ctx, mark(&s), "k", 1)
+			return
+		}},
+		{"slog.PanicContext", "package", func(e *c14env) (s c14site) {
+			slog.PanicContext(e.ctx, mark(&s), "k", 1)
+			return
+		}},
+		{"slog.FatalContext", "package", func(e *c14env) (s c14site) {
+			slog.FatalContext(e.ctx, mark(&s), "k", 1)
+			return
+		}},
+		{"slog.PrintContext", "package", func(e *c14env) (s c14site) {
+			slog.PrintContext(e.ctx, mark(&s), "k", 1)
+			return
+		}},
+		{"slog.PrintlnContext", "package", func(e *c14env) (s c14site) {
+			slog.PrintlnContext(e.ctx, mark(&s), "k", 1)
+			return
+		}},
+		{"slog.OKContext", "package", func(e *c14env) (s c14site) {
+			slog.OKContext(e.ctx, mark(&s), "k", 1)
+			return
+		}},
+		{"slog.SuccessContext", "package", func(e *c14env) (s c14site) {
+			slog.SuccessContext(e.ctx, mark(&s), "k", 1)
+			return
+		}},
+		{"slog.FailContext", "package", func(e *c14env) (s c14site) {
+			slog.FailContext(e.ctx, mark(&s), "k", 1)
+			return
+		}},
+		{"log/slog Logger.Info", "adapter", func(e *c14env) (s c14site) { e.sl.Info(mark(&s), "k", 1); return }},
+		{"log/slog Logger.Warn", "adapter", func(e *c14env) (s c14site) { e.sl.Warn(mark(&s), "k", 1); return }},
+		{"log/slog Logger.ErrorContext", "adapter", func(e *c14env) (s c14site) {
+			e.sl.ErrorContext(e.ctx, mark(&s), "k", 1)
+			return
+		}},
+		{"log/slog Logger.Log", "adapter", func(e *c14env) (s c14site) {
+			e.sl.Log(e.ctx, logslog.LevelInfo, mark(&s), "k", 1)
+			return
+		}},
+		{"log/slog Logger.LogAttrs", "adapter", func(e *c14env) (s c14site) {
+			e.sl.LogAttrs(e.ctx, logslog.LevelInfo, mark(&s), logslog.Int("k", 1))
+			return
+		}},
+		{"log/slog package Info (SetDefault)", "adapter", func(e *c14env) (s c14site) {
+			old := logslog.Default()
+			logslog.SetDefault(e.sl)
+			defer logslog.SetDefault(old)
+			logslog.Info(mark(&s), "k", 1)
+			return
+		}},
+		{"log/slog Logger.With(...).Info (derived handler)", "adapter", func(e *c14env) (s c14site) {
+			d := e.sl.With("a", 1)
+			d.Info(mark(&s), "k", 1)
+			return
+		}},
+		{"log/slog Logger.WithGroup(g).Warn (derived handler)", "adapter", func(e *c14env) (s c14site) {
+			d := e.sl.WithGroup("g")
+			d.Warn(mark(&s), "k", 1)
+			return
+		}},
+		{"std log Print", "bridge", func(e *c14env) (s c14site) { e.std.Print(mark(&s)); return }},
+		{"std log Printf", "bridge", func(e *c14env) (s c14site) { e.std.Printf(mark(&s)+" %d", 1); return }},
+		{"std log Println", "bridge", func(e *c14env) (s c14site) { e.std.Println(mark(&s)); return }},
+		{"std log Output(1)", "bridge", func(e *c14env) (s c14site) { _ = e.std.Output(1, mark(&s)); return }},
 	}
 }
 
@@ -139,6 +280,20 @@ func c14wrapB4(l slog.Logger) { c14wrapB3(l) }
 // closure wrapper
 var c14wrapC1 = func(l slog.Logger) { l.LogAttrs(context.Background(), slog.InfoLevel, "m", "k", 1) }
 
+//go:noinline
+func c14wrapD1(sl *logslog.Logger) { sl.Info("m", "k", 1) }
+
+//go:noinline
+func c14wrapD2(sl *logslog.Logger) { c14wrapD1(sl) }
+
+//go:noinline
+func c14wrapE1(l slog.Logger) { l.Println(42) }
+
+// c14adapter builds a log/slog logger on the adapter without changing the logger's format.
+func c14adapter(l slog.Logger) *logslog.Logger {
+	return logslog.New(slog.NewSlogHandler(l, &slog.HandlerOptions{NoColor: !l.ColorMode(), JSON: l.JSONMode()}))
+}
+
 type c14wrapCase struct {
 	name string
 	n    int
@@ -147,15 +302,26 @@ type c14wrapCase struct {
 
 func c14wrappers() []c14wrapCase {
 	return []c14wrapCase{
-		{"noinline chain, Info", 1, func(l slog.Logger) c14site { s := here(runtime.Caller(0)); c14wrapA1(l); return s }},
-		{"noinline chain, Info", 2, func(l slog.Logger) c14site { s := here(runtime.Caller(0)); c14wrapA2(l); return s }},
-		{"noinline chain, Info", 3, func(l slog.Logger) c14site { s := here(runtime.Caller(0)); c14wrapA3(l); return s }},
-		{"noinline chain, Info", 4, func(l slog.Logger) c14site { s := here(runtime.Caller(0)); c14wrapA4(l); return s }},
-		{"inlinable chain, ErrorContext", 1, func(l slog.Logger) c14site { s := here(runtime.Caller(0)); c14wrapB1(l); return s }},
-		{"inlinable chain, ErrorContext", 2, func(l slog.Logger) c14site { s := here(runtime.Caller(0)); c14wrapB2(l); return s }},
-		{"inlinable chain, ErrorContext", 3, func(l slog.Logger) c14site { s := here(runtime.Caller(0)); c14wrapB3(l); return s }},
-		{"inlinable chain, ErrorContext", 4, func(l slog.Logger) c14site { s := here(runtime.Caller(0)); c14wrapB4(l); return s }},
-		{"closure wrapper, LogAttrs", 1, func(l slog.Logger) c14site { s := here(runtime.Caller(0)); c14wrapC1(l); return s }},
+		{"noinline chain, Info", 1, func(l slog.Logger) (s c14site) { c14wrapA1(markV(&s, l)); return }},
+		{"noinline chain, Info", 2, func(l slog.Logger) (s c14site) { c14wrapA2(markV(&s, l)); return }},
+		{"noinline chain, Info", 3, func(l slog.Logger) (s c14site) { c14wrapA3(markV(&s, l)); return }},
+		{"noinline chain, Info", 4, func(l slog.Logger) (s c14site) { c14wrapA4(markV(&s, l)); return }},
+		{"inlinable chain, ErrorContext", 1, func(l slog.Logger) (s c14site) { c14wrapB1(markV(&s, l)); return }},
+		{"inlinable chain, ErrorContext", 2, func(l slog.Logger) (s c14site) { c14wrapB2(markV(&s, l)); return }},
+		{"inlinable chain, ErrorContext", 3, func(l slog.Logger) (s c14site) { c14wrapB3(markV(&s, l)); return }},
+		{"inlinable chain, ErrorContext", 4, func(l slog.Logger) (s c14site) { c14wrapB4(markV(&s, l)); return }},
+		{"closure wrapper, LogAttrs", 1, func(l slog.Logger) (s c14site) { c14wrapC1(markV(&s, l)); return }},
+		{"log/slog adapter behind a wrapper", 1, func(l slog.Logger) (s c14site) {
+			sl := c14adapter(l)
+			c14wrapD1(markV(&s, sl))
+			return
+		}},
+		{"log/slog adapter behind a wrapper", 2, func(l slog.Logger) (s c14site) {
+			sl := c14adapter(l)
+			c14wrapD2(markV(&s, sl))
+			return
+		}},
+		{"Println(non-string) behind a wrapper", 1, func(l slog.Logger) (s c14site) { c14wrapE1(markV(&s, l)); return }},
 	}
 }
 
@@ -232,7 +398,7 @@ func c14run1(cas c14case) *Violation {
 		if ent.kind == "package" && cas.Logger != "default" {
 			return nil
 		}
-		env := &c14env{l: l, ctx: context.Background()}
+		env := &c14env{l: l, ctx: context.Background(), conf: conf}
 		switch ent.kind {
 		case "adapter":
 			h := slog.NewSlogHandler(l, &slog.HandlerOptions{NoColor: cas.Format != "color", JSON: cas.Format == "json"})
@@ -249,6 +415,9 @@ func c14run1(cas c14case) *Violation {
 		return mk("one-record", fmt.Sprintf("%d records written", len(rec.events)))
 	}
 	p := rec.events[0].Payload
+	if p == "\n" {
+		return nil // a blank Print/Println is a bare newline (C02); nothing to attribute
+	}
 	wantFile := slog.Safety(site.file)
 	wantFn := runtime.FuncForPC(site.pc).Name()
 	var gotFile, gotFn string
